@@ -12,7 +12,7 @@ CLAIMED = {
          "Collection names that are not valid UTF-8 cannot be carried by the JSON root record (defect F18, repaired: Flush refuses them; corpus/F18; the model's flush has the same guard and profiles C02/C12 generate such names). The history theorem's side condition excludes collection names that need JSON escapes; the root-record round trip for such names is C14.root_roundtrip, their behaviour in histories is covered by the correspondence runs (the name pool contains them)."),
  "C06": ("Lean proof: visit = foldUntil over filtered in-order list with depths; correspondence",
          "ascend_exact/descend_exact: for every search tree, target, visitor and state, the visit delivers exactly the filtered in-order items with true depths and stops after the first rejection. Compared against the package for both directions, value modes, targets and stop positions in all cache states.",
-         "Iterators are compared through the c18 stream; the C12n profile (no load-time comparator callback, SetCollection installs the comparator after every open) runs here too; so does the `Chain` step (a treap made a path of 66-80 nodes by caller-chosen priorities)."),
+         "lazy_visit_exact: visitNodes on the lazily loaded tree of Model L (loads, second item read, eviction on the way out) hands the visitor Model A's sequence from any cached view; stream C19L (cvisit) compares what the Ex visitors are handed, every file read and the cached view afterwards. Iterators are compared through the c18 stream; the C12n profile (no load-time comparator callback, SetCollection installs the comparator after every open) runs here too; so does the `Chain` step (a treap made a path of 66-80 nodes by caller-chosen priorities)."),
  "C08": ("Lean proof: scanRoots_revert / revertStore_prev / revertStore_none; divergence of the pinned loop; correspondence",
          "FlushRevert lands on the greatest complete root record below the current end and truncates there, or empties the store; the scan is total by structural recursion (the pinned loop is proved to diverge: defect F2, fixed). Compared on histories with many flushes/reverts/re-opens; hangs are caught by a watchdog.",
          "FlushRevert after a FAILED Flush was defect F10 (repaired); the fault stream reverts directly after failed flushes. `c08s` sweeps the size of the flush being reverted over across every power of two from 512 to 8192. KNOWN FINDING F17 (known_findings.json, corpus/F17, Lean: history_refinement_fails_on_forged_root): a stored value that is a complete root record naming its own offset is taken for the previous flush - the property is known to fail there; history_refinement_partial carries the hypothesis that excludes it. Stream C08f compares FlushRevert with the SPECIFICATION (ghost stack of flushed states in the model driver), one history in three with such a value; those print KNOWN-FINDING, every other disagreement is reported. Collection names of 4100-4300 bytes (root records above 4 KiB) occur in one history in five."),
